@@ -31,6 +31,11 @@ CHECKS = {
    "For 62 types x all columns (len <= 2) x layouts (<= 1 deviation): every mutilation of a type-agnostic menu (len/offset +-1 and overflowing, buffer dropped/added/truncated by a byte or an element/misaligned, validity short/forbidden/wrong null_count, child dropped/added/retyped/shortened/lengthened, every cell of every offsets/sizes/keys/type-id/view/value buffer of the array and its children overwritten by each of 8 replacement values) is fed to ArrayData::try_new, ArrayDataBuilder::build (with and without align_buffers) and new_unchecked+validate_full; whatever is accepted must pass vmodel::spec_validate; RecordBatch::try_new(_with_options) trials.",
    "Trusted: vmodel::spec_validate (it is never stricter than arrow-rs documents: arbitrary payload under nulls for dictionary keys, empty offsets for empty arrays). Only single mutilations; typed try_new constructors and the C Data Interface import path are not driven yet.",
    "DESIGN.md section 4, C09"),
+ "C13": ("vk-cast", "exploration",
+   "bounded exhaustive enumeration of the ordered-pair cast matrix over a type grid x small columns x layouts, exhaustive 8/16-bit and Float16 sources, every calendar day 0001-9999, and a DataType grammar, against documented-semantics references and relational oracles",
+   "Complete ordered-pair product of a 92-type grid (8464 pairs, 5136 accepted by can_cast_types): O1 can_cast_types implies no unsupported-class error on the empty and all-null column; O2 strict/safe duality row-wise on every column of length <= 2 (3) over the full alphabet and <= 3 (5) over core letters x {compact, sliced, garbage-under-nulls}; O3 exact references only where a documentation sentence pins the value (each family cites it); O4 inverse identities on 648 lossless pairs; exhaustive sources: all values of Int8/UInt8/Int16/UInt16 and all Float16 bit patterns to every castable target in both modes; text: every Date32 day of years 0001-9999 and timestamp lattices in 4 zones through format and parse, every FormatOptions field one deviation from default; DataType Display->FromStr over a depth-2 grammar (12k / 20k types).",
+   "Trusted: the per-family reference semantics derived from the cited documentation sentences; named IANA zones and unions are outside the grid.",
+   "DESIGN.md section 4, C13; engine/vk-cast/STATUS.md"),
  "C16": ("vk-buffer", "model_checking",
    "explicit-state BFS over operation histories of the real buffer/array/FFI objects against a reference model, plus stateless enumeration of all thread schedules up to a preemption bound under a baton scheduler",
    "States are histories replayed on fresh real objects (Buffer, MutableBuffer, BooleanBuffer, Int32Array, exported/imported C Data Interface structs, bytes::Bytes) sharing one region of each allocation kind (Vec, MutableBuffer, custom owner, bytes crate); 19 operation kinds x handle index, BFS with canonical sharing-graph dedup to depth 6 (quick) / 8 (thorough). After every transition: each live handle still shows its snapshot, the custom owner's release counter is 0 while a handle is alive and 1 afterwards, FFI release callbacks ran once per export, pool.used() lies within the model of live claims, and at teardown everything is released exactly once. Thread part: every 2-3 thread program of 1-2 operations is run under all schedules with <= 2 (3) preemptions.",
